@@ -158,6 +158,25 @@ def progPread (off n : Nat) : List Sys := [.pread .shared off n]
 def progDupSeekRead (off n : Nat) : List Sys :=
   [.dup .shared, .lseek (.alias 0) off, .read (.alias 0) n, .close (.alias 0)]
 
+/-- `read_range(off, n)` after the repair, as a syscall program on a file of `len` bytes:
+    `read_exact_at` is a loop `while !buf.is_empty() { pread(rest, pos) }` that stops with an error
+    when a `pread` returns 0 bytes; on a regular file a `pread` returns `min(n, len - off)` bytes.
+    So: no syscall for `n = 0`; one `pread` when the range lies inside the file; otherwise a short
+    `pread` followed by one at end-of-file that returns nothing (error). -/
+def progReadRange (len off n : Nat) : List Sys :=
+  if n = 0 then []
+  else if off + n ≤ len then [.pread .shared off n]
+  else if off < len then [.pread .shared off n, .pread .shared len (off + n - len)]
+  else [.pread .shared off n]
+
+/-- what `read_exact(_at)` makes of the chunks the syscalls returned: their concatenation;
+    `none` (an `Err`) if a syscall failed or returned no bytes (end of file). -/
+def readExactResult : List (Option Bytes) → Option Bytes
+  | [] => some []
+  | none :: _ => none
+  | some [] :: _ => none
+  | some b :: rest => (readExactResult rest).map (b ++ ·)
+
 /-- the schedule in which call 0 returns call 1's bytes when both run `progDupSeekRead` -/
 def raceSchedule : List Nat := [0, 0, 1, 1, 0, 0, 1, 1]
 
@@ -214,8 +233,10 @@ def normalise (sfd : Nat) (raw : List Raw) : Option (List Sys) :=
 File contents are position dependent: byte `p` is `patByte p` (the harness writes the same
 pattern), so a wrong byte identifies the position it came from.
 
-* `C13 iso <sfd> <len> <raw,…>` – an observed per-call program (`d:fd:new`, `o:new`, `l:fd:off`,
-  `r:fd:n`, `p:fd:n:off`, `c:fd`).  Answer: `<normalised> iso=<b> out=<result of running it alone>`.
+* `C13 iso <sfd> <len> <raw,…> <off> <n>` – the program observed (strace) for one
+  `read_range(off, n)` call (`d:fd:new`, `o:new`, `l:fd:off`, `r:fd:n`, `p:fd:n:off`, `c:fd`).
+  Answer: `<normalised> iso=<b> modelled=<is it progReadRange len off n?> out=<result of running
+  it alone, as read_exact sees it>`.
 * `C13 sched <len> <prog;prog;…> <c,c,…>` – programs in reference form (`d.s`, `d.a0`, `d.o0`,
   `o`, `l.<ref>.<off>`, `r.<ref>.<n>`, `p.<ref>.<off>.<n>`, `c.<ref>`), a schedule.
   Answer: per call `iso=<b>:<out>` joined by `;`, then `|seq=<b>` (does every call return what it
@@ -282,14 +303,18 @@ def parseRaw (s : String) : Option Raw :=
 
 def handle (args : List String) : String :=
   match args with
-  | ["iso", sfd, len, raw] =>
-    match sfd.toNat?, len.toNat?, (if raw == "-" then some [] else (raw.splitOn ",").mapM parseRaw) with
-    | some sfd, some len, some raw =>
+  | ["iso", sfd, len, raw, off, n] =>
+    match sfd.toNat?, len.toNat?, (if raw == "-" then some [] else (raw.splitOn ",").mapM parseRaw),
+          off.toNat?, n.toNat? with
+    | some sfd, some len, some raw, some off, some n =>
       match normalise sfd raw with
       | none => "unnormalisable"
       | some p =>
-        s!"{showProg p} iso={isolated p} out={showOut (sequentialOut (patFile len) [p] 0)}"
-    | _, _, _ => "bad-op"
+        let res := match readExactResult (sequentialOut (patFile len) [p] 0) with
+          | none => "err"
+          | some b => hexBytes b
+        s!"{showProg p} iso={isolated p} modelled={p == progReadRange len off n} out={res}"
+    | _, _, _, _, _ => "bad-op"
   | ["sched", len, progs, sched] =>
     match len.toNat?, (progs.splitOn ";").mapM parseProg,
           (if sched == "-" then some [] else (sched.splitOn ",").mapM (·.toNat?)) with
